@@ -28,6 +28,7 @@ type fsState struct {
 	trace    []string
 	failOpen map[string]bool // OpenFile/Create on these paths fails with a non-ENOENT error
 	notExist map[*Value]bool // error values that satisfy os.IsNotExist
+	tmpSeq   int             // os.CreateTemp counter
 }
 
 func newFS() *fsState {
@@ -200,6 +201,64 @@ func registerFS(ip *Interp) {
 		p := new(Value)
 		*p = st
 		return Tuple{Iface{T: types.NewPointer(t), V: p}, Iface{}}
+	})
+	// temp file + rename (atomic-save idiom)
+	stub("os.CreateTemp", func(ip *Interp, fr *frame, a []Value) Value {
+		dir := ip.concStr(a[0], "dir name")
+		pat := ip.concStr(a[1], "temp pattern")
+		ip.fs.tmpSeq++
+		suffix := fmt.Sprintf("%09d", 123456789+ip.fs.tmpSeq)
+		name := pat + suffix
+		if i := strings.LastIndex(pat, "*"); i >= 0 {
+			name = pat[:i] + suffix + pat[i+1:]
+		}
+		return open(ip, dir+"/"+name, true, true)
+	})
+	stub("(*os.File).Name", func(ip *Interp, fr *frame, a []Value) Value {
+		return mkStr(ip.ctx, a[0].(*Native).V.(*fsHandle).name)
+	})
+	for _, n := range []string{"(*os.File).Sync", "(*os.File).Chmod"} {
+		stub(n, func(ip *Interp, fr *frame, a []Value) Value { return Iface{} })
+	}
+	isDir := func(ip *Interp, name string) bool {
+		if ip.fs.failOpen[name] { // FSFailOpen: natively a directory of that name
+			return true
+		}
+		if _, ok := ip.fs.files[name+"/"]; ok {
+			return true
+		}
+		for f := range ip.fs.files {
+			if strings.HasPrefix(f, name+"/") {
+				return true
+			}
+		}
+		return false
+	}
+	stub("os.Rename", func(ip *Interp, fr *frame, a []Value) Value {
+		from, to := ip.concStr(a[0], "file name"), ip.concStr(a[1], "file name")
+		f := ip.fs.files[from]
+		if f == nil {
+			return ip.fsErr("rename "+from+" "+to+": no such file or directory", true)
+		}
+		if isDir(ip, to) {
+			return ip.fsErr("rename "+from+" "+to+": file exists", false)
+		}
+		if !ip.fsDirExists(to) {
+			return ip.fsErr("rename "+from+" "+to+": no such file or directory", true)
+		}
+		ip.fs.files[to] = f
+		delete(ip.fs.files, from)
+		ip.fs.trace = append(ip.fs.trace, "rename:"+from+"->"+to, "write:"+to)
+		return Iface{}
+	})
+	stub("os.Remove", func(ip *Interp, fr *frame, a []Value) Value {
+		name := ip.concStr(a[0], "file name")
+		if _, ok := ip.fs.files[name]; !ok {
+			return ip.fsErr("remove "+name+": no such file or directory", true)
+		}
+		delete(ip.fs.files, name)
+		ip.fs.trace = append(ip.fs.trace, "remove:"+name)
+		return Iface{}
 	})
 	stub("os.WriteFile", func(ip *Interp, fr *frame, a []Value) Value {
 		name := ip.concStr(a[0], "file name")
